@@ -9,7 +9,7 @@ def tiers(qcases, qshards, tcases, tshards, qtimeout=600, ttimeout=3000, qenv=No
 PROPS = {
     "C12": {
         "kind": "storage", "test": "TestVerifC12", "level": "exploration",
-        "tiers": tiers(5000, 4, 60000, 16),
+        "tiers": tiers(40000, 8, 600000, 16),
         "rule": "rapid-generated nodes built with the engine's own mutators (leaf: 0..9 cells, values 0..400 bytes of three byte patterns, "
                 "any tombstone subset, all sibling flag/offset combinations, any LSN/offset, optional post-split halves; internal: 0..290 cells, optional split) "
                 "plus an exhaustive sweep of all leaf shapes with <=3 cells x sizes {0,1,400} x tombstones x flags (shard 0). "
@@ -25,7 +25,7 @@ PROPS = {
 
 PROPS["C01"] = {
     "kind": "harness", "test": "TestC01", "level": "exploration",
-    "tiers": tiers(150, 4, 1500, 16),
+    "tiers": tiers(1500, 8, 20000, 16),
     "rule": "rapid-generated histories of 5-60 valid CREATE TABLE / INSERT (single, multi-row, with column lists, direct values incl. negative ints, bytes, NULL) / "
             "UPDATE / DELETE statements over 1-12 tables, executed as SQL text through Session.ExecQuery (direct statement values through engine.Evaluate*), "
             "with generated flushes; after every k-th statement and at the end SELECT * of each table is compared as a sequence with the reference model, "
@@ -39,7 +39,7 @@ PROPS["C01"] = {
 
 PROPS["C02"] = {
     "kind": "harness", "test": "TestC02", "level": "fault_enumeration",
-    "tiers": tiers(300, 8, 1500, 16),
+    "tiers": tiers(800, 8, 12000, 16),
     "rule": "rapid-generated cases of 1-4 segments of valid DDL/DML histories (<=22 statements each, 1-9 tables) with a generated flush pattern "
             "(never / always / random subset / only after DDL), each segment ended by process death (stores abandoned, nothing flushed) or clean shutdown; "
             "in segment 0 a crash image (copy of data file and log) is taken after EVERY statement and recovered with the real InitStorage; every image and every "
@@ -53,7 +53,7 @@ PROPS["C02"] = {
 
 PROPS["C03"] = {
     "kind": "harness", "test": "TestC03", "level": "fault_enumeration", "journal": True,
-    "tiers": tiers(60, 4, 500, 16),
+    "tiers": tiers(800, 8, 12000, 16),
     "rule": "rapid-generated histories (3-18 valid statements, generated flushes) in which 1-3 multi-row INSERT/UPDATE/DELETE statements are victims; the verif hook fires before "
             "EVERY write and fsync the victim issues on the log, and at each such point two crash images are taken (log as written so far; log cut at the last fsync); every image is "
             "recovered with the real InitStorage and must equal the model state before the victim plus the first r row operations for some r in 0..n (other tables untouched, catalog intact), "
@@ -67,7 +67,7 @@ PROPS["C03"] = {
 
 PROPS["C04"] = {
     "kind": "harness", "test": "TestC04", "level": "fault_enumeration", "journal": True,
-    "tiers": tiers(60, 4, 400, 16),
+    "tiers": tiers(60, 8, 700, 16),
     "rule": "rapid-generated histories (3-16 valid statements, flush after most statements) ending in shutdown or process death; EVERY flush in them (timer tick = VerifFlush, the one ending CREATE TABLE, "
             "the one in shutdown, and the one that ends recovery of the crashed image) is recorded through the hooks and its torn states are composed: pre-flush file + subset S of the flushed pages + old header, "
             "all 2^|D| subsets for |D|<=6 else >=64 sampled incl. all singletons and co-singletons; each composed image is recovered with the real InitStorage and compared with the model of all statements acknowledged "
@@ -81,7 +81,7 @@ PROPS["C04"] = {
 
 PROPS["C10"] = {
     "kind": "harness", "test": "TestC10", "level": "exploration",
-    "tiers": tiers(5000, 4, 100000, 16),
+    "tiers": tiers(40000, 8, 600000, 16),
     "rule": "rapid-generated statement trees over the whole supported grammar (SELECT with <=3 joins, OR-of-AND conditions, aggregates with GROUP BY, ORDER BY <=6 keys, LIMIT/OFFSET in both orders; multi-row INSERT, UPDATE, DELETE, CREATE TABLE/DATABASE, USE, SHOW DATABASE[S]), "
             "each rendered twice with independent layout choices (keyword case, spaces/tabs/newlines, optional INNER/AS/ASC, delimited identifiers, trailing semicolon) and parsed by the real scanner+parser; "
             "both parses must equal, structurally (canonical printer over the sql AST), the AST the tree denotes. Plus exhaustively (shard 0): all 63 OR/AND shapes with <=6 comparisons x all 2^n valuations in 6 clause contexts, "
@@ -94,7 +94,7 @@ PROPS["C10"] = {
 
 PROPS["C09"] = {
     "kind": "harness", "test": "TestC09", "level": "exploration", "journal": False, "ulimit_v_kb": 16 * 1024 * 1024,
-    "tiers": tiers(8000, 4, 60000, 16),
+    "tiers": tiers(20000, 8, 300000, 16),
     "native_fuzz": {"target": "FuzzC09", "seconds": 150},
     "rule": "inputs to exactly engine.parseSQL's pipeline (NewTokenScanner -> TokenList -> Parser.Parse) under recover() and a 10 s hang watchdog: (a) bounded-exhaustive: every sequence of 3 tokens over the full vocabulary "
             "(all keywords, identifiers, delimited identifiers, small/20-digit/hex/octal/float/underscore numerals, strings, lone quotes, every punctuation and comment opener; ~130 tokens, split over the shards), thorough: also length 4 over ~50 class representatives; "
@@ -108,7 +108,7 @@ PROPS["C09"] = {
 
 PROPS["C05"] = {
     "kind": "harness", "test": "TestC05", "level": "exploration",
-    "tiers": tiers(400, 4, 4000, 16),
+    "tiers": tiers(6000, 8, 100000, 16),
     "rule": "rapid-generated (table, query) pairs: a table of 2-5 NULL-free columns over all four types with 0-40 rows from small value domains (ties, duplicates, empty tables), and 1-10 SELECTs over it written as SQL text with layout variations: "
             "select list * or 1-4 items (columns, optionally qualified by table name or alias; comparison/boolean expressions; literals; aliases with or without AS), WHERE = OR-of-ANDs of well-typed comparisons (column/literal in either order, column/column), "
             "ORDER BY 0-3 output columns by name, alias or qualified name with ASC/DESC/default, LIMIT and OFFSET in either order with values around the result size. Oracle: reference evaluator (harness/ref); without ORDER BY exact sequence, with ORDER BY a validity predicate "
@@ -120,7 +120,7 @@ PROPS["C05"] = {
 
 PROPS["C06"] = {
     "kind": "harness", "test": "TestC06", "level": "exploration",
-    "tiers": tiers(400, 4, 4000, 16),
+    "tiers": tiers(4000, 8, 70000, 16),
     "rule": "rapid-generated cases: 1-3 tables (INT key over {0..3} so keys repeat and rows stay unmatched, shared and table-unique column names, 0-12 rows, empty tables included) and 1-8 queries with a left-deep chain of 1-2 joins "
             "(JOIN / INNER JOIN / LEFT JOIN / RIGHT JOIN, the same table twice under two aliases allowed), ON = 1-2 comparisons (=, <, !=, >=; AND or OR) between columns of tables that cannot be NULL-padded at that point, "
             "select list * or qualified/unique-unqualified columns, optional WHERE on a never-padded column, all as SQL text; 1 in 6 queries misaddresses a column on purpose (unqualified but present on both sides; name-qualified although aliased; unknown) and must be rejected. "
@@ -132,7 +132,7 @@ PROPS["C06"] = {
 
 PROPS["C07"] = {
     "kind": "harness", "test": "TestC07", "level": "exploration",
-    "tiers": tiers(300, 4, 3000, 16),
+    "tiers": tiers(4000, 8, 70000, 16),
     "rule": "rapid-generated cases: table t0(g1 INT, g2 VARCHAR, n INT nullable, v INT, w BIGINT) with 0-60 rows whose grouping values collide when printed and concatenated (ints {1,2,3,12,23,123}, strings {'1','12','2','','<nil>','true',...}), "
             "NULLs in n, AVG columns small or up to +-2^31 / +-2^40, optionally t1 for a join; 1-8 aggregate queries as SQL text: COUNT(*), COUNT(col), AVG(col) in any select-list position, 0-3 grouping columns referenced in GROUP BY (comma separated) by name, qualified name or alias, "
             "optional WHERE and JOIN. Oracle: reference grouping by value tuples, exact rational mean (either neighbour accepted at an exact half), compared as a multiset; metamorphic second run on a shadow database holding the same rows in a generated permutation. "
@@ -145,7 +145,7 @@ PROPS["C07"] = {
 
 PROPS["C08"] = {
     "kind": "harness", "test": "TestC08", "level": "exploration",
-    "tiers": tiers(300, 4, 4000, 16),
+    "tiers": tiers(1500, 8, 25000, 16),
     "rule": "rapid-generated cases: a schema of 1-8 columns in any mix/order of the four types (first column a unique row number), then two phases of single-row operations: INSERT and UPDATE of boundary-biased values "
             "(INT/BIGINT extremes, 2^53+1, empty strings, NUL/0xFF/invalid UTF-8 bytes, NULLs), rows built to encode to exactly 400 bytes (must be accepted) and 401 bytes (must be refused), wrong-kind values, INT beyond 32 bits; "
             "each statement as SQL text when the dialect can express it, else as direct statement values. After every statement SELECT * must equal the model bit-for-bit (refused statements: error and unchanged table); "
@@ -158,7 +158,7 @@ PROPS["C08"] = {
 
 PROPS["C14"] = {
     "kind": "harness", "test": "TestC14", "level": "exploration",
-    "tiers": tiers(300, 4, 3000, 16),
+    "tiers": tiers(3000, 8, 50000, 16),
     "rule": "rapid-generated cases: a database state built by a valid history of 2-14 statements (generated flushes, so changes may be unflushed), then ONE failing statement: INSERT/UPDATE/DELETE on an unknown table, duplicate CREATE TABLE, "
             "and INSERT with column-count mismatch / type mismatch / INT out of range / oversize row where the offending row sits at every index k of n rows, UPDATE with a bad value, UPDATE that becomes oversize only at the k-th matching row. "
             "Oracle: an error is returned and every table, row id and the catalog equal the model of the history, immediately, after crash + recovery of the files as they are, and after (optional tick +) clean restart; then a valid insert per table must work. "
@@ -171,7 +171,7 @@ PROPS["C14"] = {
 
 PROPS["C16"] = {
     "kind": "harness", "test": "TestC16", "level": "exploration",
-    "tiers": tiers(120, 4, 1200, 16),
+    "tiers": tiers(400, 8, 6000, 16),
     "rule": "rapid-generated histories of 10-70 valid statements over up to 6 tables (table sizes bounded so that a full-table UPDATE/DELETE dirties fewer pages than the cache holds - the property's precondition), executed twice through the real engine: "
             "with the default cache of 10000 pages and with a cache of a generated capacity 12-40 pages (hook VerifSetCacheSize) and a flush after every statement. Oracle (differential + model): every statement has the same outcome, "
             "'cache full' while the dirty set fits is a violation, the cache never exceeds its capacity, no page stays dirty after a flush, and at the end every table and both catalog tables are identical row by row including row ids; both runs also equal the reference model. "
@@ -183,7 +183,7 @@ PROPS["C16"] = {
 
 PROPS["C17"] = {
     "kind": "harness", "test": "TestC17", "level": "exploration",
-    "tiers": tiers(250, 4, 2500, 16),
+    "tiers": tiers(2500, 8, 40000, 16),
     "rule": "rapid-generated session histories of 8-60 operations over the database names d1,d2,d3,shop: CREATE DATABASE (new / existing), USE (other / current / non-existent), SHOW DATABASES, valid DDL/DML on the selected database (a table statement with nothing selected must fail), "
             "timer ticks (VerifTickAll runs flushPages on every store that owns a flush timer right now, oldest or newest first - including stores a USE left behind), clean restarts and crash restarts. "
             "Oracle: a model database per name; every operation's outcome class, storage.ShowDB() = the created names, the selected database compared after every USE / tick / statement, every database selected in turn and compared at each restart and at the end, "
@@ -196,7 +196,7 @@ PROPS["C17"] = {
 
 PROPS["C18"] = {
     "kind": "harness", "test": "TestC18", "level": "exploration", "journal": True,
-    "tiers": tiers(400, 4, 5000, 16),
+    "tiers": tiers(3000, 8, 50000, 16),
     "rule": "rapid-generated cases: a session state (database selected and populated with four tables over all four column types holding NULLs, an empty table; no USE yet; failed USE; USE of an empty database) and 5-40 statements executed through Session.ExecQuery: "
             "4 in 5 are drawn from the full statement grammar with identifiers from the same pools the schema uses, so that they resolve tables and columns and then apply AVG/COUNT/ORDER BY/comparisons/INSERT/UPDATE values to columns of arbitrary type and to NULLs, "
             "or miss, duplicate or ambiguously name columns; 1 in 5 from a list of 70 targeted statements (aggregates over VARCHAR/BOOLEAN/NULL, ORDER BY over NULLs and ambiguous keys, mistyped comparisons, catalog tables, degenerate DDL). "
@@ -208,7 +208,7 @@ PROPS["C18"] = {
 
 PROPS["C15"] = {
     "kind": "storage", "test": "TestVerifC15", "level": "exploration",
-    "tiers": tiers(1500, 4, 12000, 16),
+    "tiers": tiers(5000, 8, 60000, 16),
     "rule": "operation sequences over LRUCache.set (clean or already-dirty page, same or fresh page object) / get / markDirty / markClean, run against the real cache and a list-based reference model written from the property's text; after EVERY step the boolean of set, "
             "(page identity, found) of get, resident key set, recency order (read from the internal list), index/list consistency and size <= capacity are compared. (a) bounded-exhaustive: all sequences of depth 5 (thorough: 6) over capacities 1-3 with capacity+1 keys "
             "(alphabet 10-20 operations, split over the shards by first operation); (b) rapid: sequences of 20-400 operations at capacities 1-6 and 200-2000 operations at capacities 5-64. "
@@ -221,7 +221,7 @@ PROPS["C15"] = {
 
 PROPS["C11"] = {
     "kind": "storage", "test": "TestVerifC11", "level": "exploration",
-    "tiers": tiers(60, 4, 500, 16, qtimeout=900),
+    "tiers": tiers(200, 8, 3000, 16, qtimeout=900),
     "rule": "rapid-generated histories of 10-120 operations through the real RelationService over 1-4 trees sharing one file: CreateTable, Insert batches of 1-40 rows with payloads of 1-390 bytes, Update, MarkDeleted, flushPages, reload (flush + empty cache), "
             "close/reopen and crash + WAL recovery; after EVERY operation a page-graph walker written from the definition checks the catalog trees and every user tree of the file: keys strictly ascending within and across leaves, every key inside the bounds given by its ancestors' separators, "
             "separators strictly ascending, all leaves at one depth, no page reachable twice over all trees, no node over capacity and every node encodes to 4096 bytes, left-to-right sibling chain = leaves in tree order = reverse of the right-to-left chain, every live key found by findCell from the root and no tombstoned one, live keys = what the history implies. "
@@ -234,7 +234,7 @@ PROPS["C11"] = {
 
 PROPS["C19"] = {
     "kind": "csvimport", "test": "TestVerifC19", "level": "exploration",
-    "tiers": tiers(300, 4, 4000, 16),
+    "tiers": tiers(6000, 8, 100000, 16),
     "rule": "rapid-generated imports run through the real doBatchInsert / csvToSql / colDataTypes against a real RelationService: a destination table of 1-6 columns over the four types (column types read back from the real catalog), an injective list of mapped destination columns with arbitrary source indexes "
             "(repeats allowed), separator in {',', ';', tab, '|'}, 0-3 pre-existing rows, and a stream of 1-25 records built by class so that the expected outcome of each record is known by construction: valid (numbers in plain / zero-padded / signed / extreme forms, every accepted boolean spelling in any case, "
             "strings containing the separator, quotes, line feeds), \\N in a mapped field, unparsable or out-of-range value for the column type, short record, bare quote in an unquoted field, text after a closing quote, extra fields, oversize string. "
@@ -247,7 +247,7 @@ PROPS["C19"] = {
 
 PROPS["C20"] = {
     "kind": "console", "test": "TestVerifC20", "level": "exploration",
-    "tiers": tiers(2500, 4, 30000, 16),
+    "tiers": tiers(30000, 8, 500000, 16),
     "rule": "rapid-generated console sessions fed to the real Terminal (NewTerminal / ReadLine, separate reader and writer): 1-6 statements of 1-10 tokens each ending in ';', with single- and double-quoted literals containing semicolons, the other quote character, spaces, multi-byte runes, comment openers; "
             "line breaks (CR, LF CR, CR LF, with trailing spaces, empty lines) only at token boundaries, several statements per line or one over many lines; the byte stream is delivered bytewise (typed), in one piece (pasted), or in generated chunk sizes 1-40 that split multi-byte runes and escape sequences; "
             "1 in 6 sessions is wrapped in bracketed-paste markers. Oracle: the statements returned by successive ReadLine calls, concatenated, are exactly the entered statements, once each and in order, equal after collapsing white space outside quotes (quoted text byte for byte). "
@@ -259,7 +259,7 @@ PROPS["C20"] = {
 
 PROPS["C13"] = {
     "kind": "harness", "test": "TestC13", "level": "exploration", "race": True,
-    "tiers": tiers(4, 8, 24, 16, qtimeout=900, ttimeout=3000),
+    "tiers": tiers(6, 8, 40, 16, qtimeout=900, ttimeout=3000),
     "rule": "rapid-generated schedules: 6-14 statements (CREATE TABLE, INSERT, UPDATE, DELETE, SELECT) run through a Session with the REAL 100 ms flush timer in a binary built with -race; for up to 4 generated statements the verif hook parks the session goroutine for 120-350 ms (1-3 ticks) "
             "at the statement's log write (all its page changes done, log append pending) or, for statements that do not log, at a generated cache access; generated idle gaps of 0-150 ms let ticks land before, inside and after statements. "
             "Oracles: (1) monitor: while a statement is parked no flush, page write or header write may happen on another goroutine; (2) every race-detector report with one side inside engine.EvaluateCreateTable/Insert/Update/Delete/Select and the other inside the flusher is a violation "
